@@ -318,11 +318,12 @@ def edge_sets(n_nodes, max_edges):
       yield es
 
 
-def exhaustive_graphs(n_nodes, max_edges, n_bind, max_ss_size, two_ssets, with_cond):
+def exhaustive_graphs(n_nodes, max_edges, n_bind, max_ss_size, two_ssets, with_cond, first_no_origin=False):
   """Every typegraph with exactly n_nodes nodes, <= max_edges edges (cycles included), n_bind
   bindings over <= 2 variables (first binding in variable 0), each binding with exactly one origin
   (any node) carrying one source set (or, if two_ssets, one or two) of size <= max_ss_size over the
-  other bindings; and (if with_cond) at most one conditional node with any binding as condition."""
+  other bindings; and (if with_cond) at most one conditional node with any binding as condition.
+  With first_no_origin, binding 0 has no origin at all (a goal that can never be explained)."""
   var_assign = [v for v in itertools.product(range(2), repeat=n_bind) if n_bind == 0 or v[0] == 0]
   def ssets_for(i):
     others = [j for j in range(n_bind) if j != i]
@@ -332,6 +333,8 @@ def exhaustive_graphs(n_nodes, max_edges, n_bind, max_ss_size, two_ssets, with_c
       opts += [[a, b] for a, b in itertools.combinations(subs, 2)]
     return opts
   ss_opts = [ssets_for(i) for i in range(n_bind)]
+  if first_no_origin and n_bind:
+    ss_opts[0] = [None]
   conds = [None]
   if with_cond:
     conds += [(n, b) for n in range(n_nodes) for b in range(n_bind)]
@@ -340,11 +343,13 @@ def exhaustive_graphs(n_nodes, max_edges, n_bind, max_ss_size, two_ssets, with_c
     for a, b in es:
       inc[b].append(a)
     for va in var_assign:
-      for wheres in itertools.product(range(n_nodes), repeat=n_bind):
+      for wheres in itertools.product(*[([None] if (first_no_origin and i == 0) else range(n_nodes))
+                                        for i in range(n_bind)]):
         for ss in itertools.product(*ss_opts):
           for c in conds:
             nodes = [{"inc": list(inc[i]), "cond": (c[1] if c and c[0] == i else None)}
                      for i in range(n_nodes)]
-            bindings = [{"var": va[i], "origins": [[wheres[i], [list(s) for s in ss[i]]]]}
+            bindings = [{"var": va[i], "origins": ([] if wheres[i] is None else
+                                                   [[wheres[i], [list(s) for s in ss[i]]]])}
                         for i in range(n_bind)]
             yield {"nodes": nodes, "bindings": bindings}
